@@ -288,7 +288,7 @@ class _URL:
         self.absolute = u.bool("url.absolute")
         self._u = u
         # yarl.URL(str) splits and validates the authority LAZILY: a bad host / port raises ValueError only when
-        # host, raw_host or port is first read (URL.build(...) validates eagerly)
+        # host, raw_host or port is first read (URL.build(host=, port=) validates eagerly; build(authority=) is lazy too)
         self.lazy = how == "URL"
         self.forced = False
 
@@ -381,7 +381,11 @@ def request_line(u: U):
             url_calls.append(("build", kw))
             if u.choose(2, "URL.build.raises"):
                 raise ValueError("Port out of range 0-65535")
-            return _URL(u, "build")
+            r = _URL(u, "build")
+            # build(host=..., port=...) validates eagerly, but build(authority=..., encoded=True) keeps the authority
+            # verbatim and splits / validates it lazily like URL(str) (observed: 'host:99999' builds, .port raises)
+            r.lazy = "authority" in kw
+            return r
 
     p = u.obj("HttpRequestParser", {}, {"parse_headers": parse_headers})
     f = u.load(MOD, "HttpRequestParser.parse_message", globals={"URL": _URLf()})
@@ -406,7 +410,8 @@ def request_line(u: U):
                 "an absolute-form target is validated completely inside parse_message (yarl checks host and port only "
                 "when they are first read): otherwise the ValueError surfaces later, in the connection task, outside any "
                 "handler - the request is never answered and the connection is left open",
-                known=[("F5a", True)], witness={"request": "GET http://a:99999/ HTTP/1.1"})
+                known=[("F5a", mu.how == "URL"), ("F5b", mu.how == "build")],
+                witness={"request": "GET http://a:99999/ HTTP/1.1" if mu.how == "URL" else "CONNECT a:99999 HTTP/1.1"})
     sp = z3.Re(z3.StringVal(" "))
     # the accepted request line, byte for byte (decode is the identity on the ASCII skeleton: assumed lemma U1)
     # component obligations (single-variable regular facts + one word equation); together with the discharged
